@@ -109,6 +109,7 @@ func c10xProperty(t *rapid.T, st *Stats) {
 		vfs.FailReadAt(k)
 	} else {
 		vfs.FailAt(k)
+		vfs.FailShort(rapid.Bool().Draw(t, "shortWrite")) // a failing write may have taken half of its buffer
 	}
 	h := olareg.New(conf(root))
 	trace = append(trace, fmt.Sprintf("%d mutating and %d reading file-system calls without fault; fault at %s call %d (second at %d)", total, totalReads, map[bool]string{true: "reading", false: "mutating"}[readFault], k, k2))
